@@ -19,10 +19,11 @@ EXTENDS UURef, TraceBase
 
 VARIABLES qHeld,      \* the lock is held (by the protocol of UURandom: lock # 0)
           qPending,   \* draws received by RandomID and not yet returned as an id
-          qStart      \* index of the r.reset event of the current run
-qvars == <<qHeld, qPending, qStart>>
+          qStart,     \* index of the r.reset event of the current run
+          qCount      \* [exits, drawn] so far in the run
+qvars == <<qHeld, qPending, qStart, qCount>>
 
-RandomInit == qHeld = FALSE /\ qPending = <<>> /\ qStart = 0
+RandomInit == qHeld = FALSE /\ qPending = <<>> /\ qStart = 0 /\ qCount = [exits |-> 0, drawn |-> 0]
 
 Bits16(n) == [i \in 1..64 |-> (n[((i - 1) \div 4) + 1] \div (2 ^ (3 - ((i - 1) % 4)))) % 2]
 Nib(bits) == [j \in 1..16 |-> 8 * bits[4 * j - 3] + 4 * bits[4 * j - 2] + 2 * bits[4 * j - 1] + bits[4 * j]]
@@ -57,20 +58,24 @@ EndDemands(e) ==
 
 RandomStep(e) ==
   CASE e.op = "r.reset" ->
-         /\ qHeld' = FALSE /\ qPending' = <<>> /\ qStart' = l /\ Note(<<>>)
+         /\ qHeld' = FALSE /\ qPending' = <<>> /\ qStart' = l /\ qCount' = [exits |-> 0, drawn |-> 0] /\ Note(<<>>)
     [] e.op = "r.enter" ->
-         /\ qHeld' = TRUE /\ UNCHANGED <<qPending, qStart>>
+         /\ qHeld' = TRUE /\ UNCHANGED <<qPending, qStart, qCount>>
          /\ Note(<< <<"C19.mutex", ~qHeld>> >>)
     [] e.op = "r.exit" ->
-         /\ qHeld' = FALSE /\ UNCHANGED <<qPending, qStart>>
+         /\ qHeld' = FALSE /\ UNCHANGED <<qPending, qStart>> /\ qCount' = [qCount EXCEPT !.exits = @ + 1]
          /\ Note(<< <<"C19.protocol", qHeld>> >>)
     [] e.op = "r.drawn" ->
          /\ qPending' = Append(qPending, <<e.a, e.b>>) /\ UNCHANGED <<qHeld, qStart>>
-         /\ Note(<< <<"C19.draw63", Is63(e.a) /\ Is63(e.b)>> >>)
+         /\ qCount' = [qCount EXCEPT !.drawn = @ + 1]
+         \* every call draws inside its own critical section: a call that received draws has
+         \* completed an enter/exit of its own before
+         /\ Note(<< <<"C19.draw63", Is63(e.a) /\ Is63(e.b)>>,
+                    <<"C19.drawn_under_lock", qCount.drawn + 1 <= qCount.exits>> >>)
     [] e.op = "r.ret" ->
          LET m == MatchIdx(e.id) IN
          /\ qPending' = IF m = {} THEN qPending ELSE Remove(qPending, CHOOSE i \in m : TRUE)
-         /\ UNCHANGED <<qHeld, qStart>>
+         /\ UNCHANGED <<qHeld, qStart, qCount>>
          /\ Note(<< <<"C19.compose", m # {}>>,
                     <<"C19.version", IsID(e.id) /\ Version(e.id) = 4>>,
                     <<"C19.variant", IsID(e.id) /\ Variant(e.id) = 1>> >>)
